@@ -1,23 +1,857 @@
-//! C13: not built yet
+//! C13: commit-log reads return exactly the retained suffix; retention is bounded.
+//!
+//! Substrate S1: a real `rumqttd::verif::CommitLog<Item>` driven directly (`append`, `readv`,
+//! `next_offset`, `memory_segments_count`, `_head_and_tail`), every call under `guarded`,
+//! next to the sequential specification `model::mlog::MLog`.
+//!
+//! **Issued cursors.** The statement's equality clause speaks about cursors "the log itself
+//! issued". The harness keeps a pool of (cursor value, position) pairs, where the position
+//! (an absolute entry number) is what the *model* says the cursor stands for at the moment
+//! it is handed out – the cursor's two numbers are never decoded by the oracle:
+//! * the value returned by `next_offset()` (and by `append`, which returns the same thing)
+//!   when n entries have been appended stands for position n (the log tail at that moment);
+//! * the tag the log attached to a returned entry stands for that entry's own position
+//!   (`Segment::readv` tags an entry with its own absolute offset, not the one after it);
+//! * the `end` of the `Position` returned by a read *from an issued cursor* stands for the
+//!   position right after the last entry that read had to return.
+//! Reads from issued cursors are compared with M-log in full; everything else offered to
+//! `readv` is *fabricated* (random, ±1 of issued values, huge) and is judged only for: no
+//! panic, at most `len` items, items in append order. A fabricated value that happens to
+//! equal an issued one is an issued cursor (the log cannot tell them apart).
+//!
+//! Oracles: `panic`, `read-items` (gap, repeat, wrong entry, wrong tag, more than `len`,
+//! stale cursor not resuming at the oldest retained entry), `caught-up` (`Done` exactly when
+//! nothing retained is left), `read-error` (`Err` from an issued cursor), `segment-bound`
+//! (more segments than configured), `retention` (head/tail segment numbers differ from
+//! M-log: something other than the whole oldest segment went, or it went although the
+//! configured number was not exceeded), `read-bounds` (more than `len` items or items out
+//! of append order, judged for every cursor, fabricated ones included). A wrong continuation shows up as `read-items` of the
+//! later read that starts from it; the `start` field of `Position` is not judged (the
+//! statement does not mention it).
+//!
+//! `readv` takes `&self` and items are plain data, so reads cannot change the log: the state
+//! is a function of the append sequence alone and "all interleavings of append and readv"
+//! in the small scope is covered by reading from *every* issued cursor with every length of
+//! a small set after *every* append.
+//!
+//! Miri smoke (DESIGN.md 2.8, manual: the dependency tree takes ~6 min to build under Miri):
+//! `VERIF_THREADS=1 MIRIFLAGS=-Zmiri-disable-isolation cargo +nightly miri run --offline --bin vh -- C13`
+//! runs a small workload (`cfg!(miri)` below); only Miri's own UB report counts there.
 use super::{Meta, Prop};
-use crate::common::{Ctx, Stats};
+use crate::common::{fnv, guarded, judge, panic_site, sharded, Ctx, Judged, Record, Rng, Stats};
+use crate::model::mlog::MLog;
+use rumqttd::verif::{CommitLog, Position, Storage};
+use serde_json::{json, Value};
+use std::collections::BTreeSet;
 
-fn run(_ctx: &Ctx) -> Stats {
-    let mut s = Stats::default();
-    s.inconclusive.push("check not built yet".into());
-    s
+const ID: &str = "C13";
+
+type Cursor = (u64, u64);
+
+#[derive(Clone, Debug, PartialEq, Eq)]
+struct Item {
+    id: u64,
+    size: usize,
+}
+
+impl Storage for Item {
+    fn size(&self) -> usize {
+        self.size
+    }
+}
+
+#[derive(Clone, Copy, Debug)]
+struct Config {
+    segment_size: usize,
+    max_segments: usize,
+}
+
+#[derive(Clone, Debug)]
+enum Op {
+    Append(usize),
+    /// `position`: Some = issued cursor standing for that position, None = fabricated
+    Read { cursor: Cursor, len: u64, position: Option<u64> },
+    /// read from every issued cursor with every one of these lengths
+    Audit(Vec<u64>),
+}
+
+impl Op {
+    fn to_json(&self) -> Value {
+        match self {
+            Op::Append(size) => json!({"op": "append", "size": size}),
+            Op::Read { cursor, len, position } => {
+                json!({"op": "readv", "cursor": [cursor.0, cursor.1], "len": len.to_string(), "position": position})
+            }
+            Op::Audit(lens) => {
+                json!({"op": "audit", "lens": lens.iter().map(|l| l.to_string()).collect::<Vec<_>>()})
+            }
+        }
+    }
+    fn from_json(v: &Value) -> Option<Op> {
+        let u = |x: &Value| x.as_u64().or_else(|| x.as_str().and_then(|s| s.parse().ok()));
+        match v["op"].as_str()? {
+            "append" => Some(Op::Append(v["size"].as_u64()? as usize)),
+            "readv" => Some(Op::Read {
+                cursor: (u(&v["cursor"][0])?, u(&v["cursor"][1])?),
+                len: u(&v["len"])?,
+                position: v["position"].as_u64(),
+            }),
+            "audit" => Some(Op::Audit(v["lens"].as_array()?.iter().filter_map(u).collect())),
+            _ => None,
+        }
+    }
+}
+
+/// lengths at which `idx + len` inside `Segment::readv` can overflow (known finding)
+fn near_max(len: u64) -> bool {
+    len > u64::MAX - (1 << 32)
+}
+
+#[derive(Default)]
+struct Tally {
+    appends: u64,
+    reads_issued: u64,
+    reads_fabricated: u64,
+    items_returned: u64,
+    o_panic: u64,
+    o_items: u64,
+    o_caught_up: u64,
+    o_bound: u64,
+    o_retention: u64,
+    o_bounds: u64,
+    panics: u64,
+    corners: [u64; 11],
+}
+
+const CORNERS: [&str; 11] = [
+    "segment-rollover",
+    "eviction",
+    "stale-cursor-jump",
+    "read-len-0",
+    "boundary-cursor-previous-segment",
+    "read-spans-segments",
+    "oversized-entry",
+    "eviction-with-one-segment",
+    "caught-up",
+    "continuation-followed",
+    "read-stops-at-segment-end",
+];
+
+impl Tally {
+    fn flush(&self, st: &mut Stats) {
+        st.opn("append", self.appends);
+        st.opn("readv-issued-cursor", self.reads_issued);
+        st.opn("readv-fabricated-cursor", self.reads_fabricated);
+        st.oraclen("panic", self.o_panic);
+        st.oraclen("read-items", self.o_items);
+        st.oraclen("caught-up", self.o_caught_up);
+        st.oraclen("segment-bound", self.o_bound);
+        st.oraclen("retention", self.o_retention);
+        st.oraclen("read-bounds", self.o_bounds);
+        st.add_extra("items_returned_by_reads", self.items_returned);
+        st.panics_caught += self.panics;
+        for (i, name) in CORNERS.iter().enumerate() {
+            if self.corners[i] > 0 {
+                *st.corners.entry((*name).to_owned()).or_default() += self.corners[i];
+            }
+        }
+    }
+}
+
+/// A history stops being judged after a violation or a known finding
+#[derive(PartialEq, Eq, Clone, Copy, Debug)]
+enum Flow {
+    Go,
+    Stop,
+}
+
+struct Driver<'a> {
+    ctx: &'a Ctx,
+    cfg: Config,
+    log: CommitLog<Item>,
+    model: MLog<u64>,
+    /// issued (cursor value, position it stands for), in the order of issue
+    pool: Vec<(Cursor, u64)>,
+    seen: BTreeSet<(Cursor, u64)>,
+    /// pool entries that are continuations of earlier reads
+    continuations: BTreeSet<Cursor>,
+    ops: Vec<Op>,
+    rolled: bool,
+    evicted: bool,
+    jumped: bool,
+    /// continuation of the most recent read from an issued cursor
+    last_end: Option<(Cursor, u64)>,
+    /// what the log returned, op by op (kept only for histories that may become samples)
+    trace: Option<Vec<Value>>,
+    /// corner states this history reached (bit i = CORNERS[i]), rollovers, evictions
+    corner_mask: u32,
+    rollovers: u32,
+    evictions: u32,
+}
+
+impl<'a> Driver<'a> {
+    fn new(ctx: &'a Ctx, cfg: Config) -> Option<Driver<'a>> {
+        let log = guarded(|| CommitLog::new(cfg.segment_size, cfg.max_segments)).ok()?.ok()?;
+        let mut d = Driver {
+            ctx,
+            cfg,
+            log,
+            model: MLog::new(cfg.segment_size as u64, cfg.max_segments as u64),
+            pool: Vec::new(),
+            seen: BTreeSet::new(),
+            continuations: BTreeSet::new(),
+            ops: Vec::new(),
+            rolled: false,
+            evicted: false,
+            jumped: false,
+            last_end: None,
+            trace: None,
+            corner_mask: 0,
+            rollovers: 0,
+            evictions: 0,
+        };
+        // the tail of the empty log is an issued cursor too
+        if let Ok(c) = guarded(|| d.log.next_offset()) {
+            d.issue(c, 0);
+        }
+        Some(d)
+    }
+
+    fn corner(&mut self, ta: &mut Tally, i: usize) {
+        ta.corners[i] += 1;
+        self.corner_mask |= 1 << i;
+    }
+
+    fn issue(&mut self, cursor: Cursor, position: u64) {
+        if self.seen.insert((cursor, position)) {
+            self.pool.push((cursor, position));
+        }
+    }
+
+    fn replay_json(&self) -> Value {
+        json!({
+            "segment_size": self.cfg.segment_size,
+            "max_segments": self.cfg.max_segments,
+            "ops": self.ops.iter().map(Op::to_json).collect::<Vec<_>>(),
+        })
+    }
+
+    fn fail(&self, st: &mut Stats, rec: Record) -> Flow {
+        let _: Judged = judge(self.ctx, st, rec, || self.replay_json());
+        Flow::Stop
+    }
+
+    fn panic_record(&self, call: &str, p: &crate::common::PanicInfo, cursor_kind: &str, len: u64) -> Record {
+        Record::new(ID, "panic", format!("CommitLog::{call} panicked at {}: {}", p.location, p.message))
+            .fact("call", call)
+            .fact("site", panic_site(p))
+            .fact("cursor", cursor_kind)
+            .fact("len_class", if near_max(len) { "near-u64-max" } else { "ordinary" })
+    }
+
+    fn append(&mut self, st: &mut Stats, ta: &mut Tally, size: usize) -> Flow {
+        self.ops.push(Op::Append(size));
+        ta.appends += 1;
+        let id = self.model.tail_position();
+        let info = self.model.append(id, size as u64);
+        let item = Item { id, size };
+        ta.o_panic += 1;
+        let returned = match guarded(|| self.log.append(item)) {
+            Ok(c) => c,
+            Err(p) => {
+                ta.panics += 1;
+                let rec = self.panic_record("append", &p, "none", 0);
+                return self.fail(st, rec);
+            }
+        };
+        if info.rolled_over {
+            self.corner(ta, 0);
+            self.rolled = true;
+            self.rollovers += 1;
+        }
+        if info.evicted_segment {
+            self.corner(ta, 1);
+            self.evicted = true;
+            self.evictions += 1;
+            if self.cfg.max_segments == 1 {
+                self.corner(ta, 7);
+            }
+        }
+        if size > self.cfg.segment_size {
+            self.corner(ta, 6);
+        }
+
+        // retention, observed through the log's own accessors
+        let observed = guarded(|| (self.log.memory_segments_count() as u64, self.log._head_and_tail(), self.log.next_offset()));
+        let (count, (head, tail), next) = match observed {
+            Ok(x) => x,
+            Err(p) => {
+                ta.panics += 1;
+                let rec = self.panic_record("next_offset", &p, "none", 0);
+                return self.fail(st, rec);
+            }
+        };
+        ta.o_bound += 1;
+        if count > self.cfg.max_segments as u64 {
+            let rec = Record::new(
+                ID,
+                "segment-bound",
+                format!("{count} segments in memory, configured maximum {}", self.cfg.max_segments),
+            )
+            .fact("segments", count)
+            .fact("max_segments", self.cfg.max_segments as u64);
+            return self.fail(st, rec);
+        }
+        ta.o_retention += 1;
+        let want = (self.model.head_segment(), self.model.tail_segment());
+        if (head, tail) != want || count != self.model.segment_count() {
+            let rec = Record::new(
+                ID,
+                "retention",
+                format!(
+                    "after append #{id} (size {size}) the log holds segments {head}..={tail} ({count} in memory), M-log holds {}..={} ({})",
+                    want.0,
+                    want.1,
+                    self.model.segment_count()
+                ),
+            )
+            .fact("head_matches", head == want.0)
+            .fact("tail_matches", tail == want.1)
+            .fact("count_matches", count == self.model.segment_count());
+            return self.fail(st, rec);
+        }
+        if let Some(t) = self.trace.as_mut() {
+            t.push(json!({"append": size, "returned": [returned.0, returned.1], "segments_in_memory": count, "head_tail": [head, tail]}));
+        }
+        // both values are "the log tail at this moment"
+        let position = self.model.tail_position();
+        self.issue(returned, position);
+        self.issue(next, position);
+        Flow::Go
+    }
+
+    /// One readv. `position`: Some(p) = the cursor was issued for position p
+    fn read(&mut self, st: &mut Stats, ta: &mut Tally, cursor: Cursor, len: u64, position: Option<u64>) -> Flow {
+        self.ops.push(Op::Read { cursor, len, position });
+        let kind = if position.is_some() { "issued" } else { "fabricated" };
+        ta.o_panic += 1;
+        let result = guarded(|| {
+            let mut out: Vec<(Item, Cursor)> = Vec::new();
+            let r = self.log.readv(cursor, len, &mut out);
+            (r, out)
+        });
+        let (result, out) = match result {
+            Ok(x) => x,
+            Err(p) => {
+                ta.panics += 1;
+                let rec = self.panic_record("readv", &p, kind, len).fact("cursor_value", format!("{cursor:?}"));
+                return self.fail(st, rec);
+            }
+        };
+        ta.items_returned += out.len() as u64;
+        if let Some(t) = self.trace.as_mut() {
+            t.push(json!({
+                "readv": [cursor.0, cursor.1], "len": len.to_string(), "cursor": kind,
+                "returned (tag, entry)": out.iter().map(|(i, tag)| json!([[tag.0, tag.1], i.id])).collect::<Vec<_>>(),
+                "position": format!("{result:?}"),
+            }));
+        }
+
+        // any cursor: never more than len, append order
+        ta.o_bounds += 1;
+        let ordered = out.windows(2).all(|w| w[0].0.id < w[1].0.id);
+        if out.len() as u64 > len || !ordered {
+            let rec = Record::new(
+                ID,
+                "read-bounds",
+                format!(
+                    "readv({cursor:?}, {len}) returned {} items, ids {:?}",
+                    out.len(),
+                    out.iter().map(|x| x.0.id).collect::<Vec<_>>()
+                ),
+            )
+            .fact("cursor", kind)
+            .fact("more_than_len", out.len() as u64 > len)
+            .fact("in_order", ordered);
+            return self.fail(st, rec);
+        }
+
+        let Some(position) = position else {
+            ta.reads_fabricated += 1;
+            return Flow::Go;
+        };
+        ta.reads_issued += 1;
+        let want = self.model.read(position, len);
+
+        let pos = match result {
+            Ok(p) => p,
+            Err(e) => {
+                let rec = Record::new(ID, "read-error", format!("readv({cursor:?}, {len}) from an issued cursor returned Err({e})"));
+                return self.fail(st, rec);
+            }
+        };
+        let (done, end) = match pos {
+            Position::Next { end, .. } => (false, end),
+            Position::Done { end, .. } => (true, end),
+        };
+
+        ta.o_items += 1;
+        let got: Vec<(Cursor, u64)> = out.iter().map(|(item, tag)| (*tag, item.id)).collect();
+        if got != want.items {
+            let what = if got.len() as u64 > len {
+                "more-than-len"
+            } else if got.iter().map(|g| g.1).ne(want.items.iter().map(|w| w.1)) {
+                if want.jumped {
+                    "wrong-entries-stale-cursor"
+                } else {
+                    "wrong-entries"
+                }
+            } else {
+                "wrong-offset-tag"
+            };
+            let rec = Record::new(
+                ID,
+                "read-items",
+                format!(
+                    "readv({cursor:?}, {len}) for position {position} (retained {}..{}): got (tag, entry) {:?}, M-log says {:?}",
+                    self.model.oldest_retained(),
+                    self.model.tail_position(),
+                    got,
+                    want.items
+                ),
+            )
+            .fact("what", what)
+            .fact("stale_cursor", want.jumped)
+            .fact("continuation_cursor", self.continuations.contains(&cursor));
+            return self.fail(st, rec);
+        }
+
+        ta.o_caught_up += 1;
+        if done != want.caught_up {
+            let rec = Record::new(
+                ID,
+                "caught-up",
+                format!(
+                    "readv({cursor:?}, {len}) for position {position} returned {pos:?}; entries retained after the read: {}",
+                    self.model.tail_position() - want.next
+                ),
+            )
+            .fact("reported_done", done)
+            .fact("entries_left", self.model.tail_position() - want.next);
+            return self.fail(st, rec);
+        }
+
+        // corners, from the model's point of view
+        if want.jumped {
+            self.corner(ta, 2);
+            self.jumped = true;
+        }
+        if len == 0 {
+            self.corner(ta, 3);
+        }
+        if let Some(seg) = self.model.segment_of(position) {
+            if position >= self.model.oldest_retained() && cursor.0.checked_add(1) == Some(seg) {
+                self.corner(ta, 4);
+            }
+        }
+        if let (Some(first), Some(last)) = (want.items.first(), want.items.last()) {
+            if first.0 .0 != last.0 .0 {
+                self.corner(ta, 5);
+            }
+            if !want.caught_up && self.model.segment_of(want.next) != Some(last.0 .0) {
+                self.corner(ta, 10);
+            }
+        }
+        if want.caught_up {
+            self.corner(ta, 8);
+        }
+        if self.continuations.contains(&cursor) {
+            self.corner(ta, 9);
+        }
+
+        // what this read issued: the tags and the continuation
+        for (tag, id) in &got {
+            self.issue(*tag, *id);
+        }
+        self.continuations.insert(end);
+        self.issue(end, want.next);
+        self.last_end = Some((end, want.next));
+        Flow::Go
+    }
+
+    /// read from every issued cursor (also those issued by this very audit) with every length
+    fn audit(&mut self, st: &mut Stats, ta: &mut Tally, lens: &[u64]) -> Flow {
+        let mut i = 0;
+        while i < self.pool.len() {
+            let (cursor, position) = self.pool[i];
+            for len in lens {
+                if self.read(st, ta, cursor, *len, Some(position)) == Flow::Stop {
+                    return Flow::Stop;
+                }
+                // reads are replayed from the Audit op, not one by one
+                self.ops.pop();
+            }
+            i += 1;
+        }
+        Flow::Go
+    }
+
+    fn audit_op(&mut self, st: &mut Stats, ta: &mut Tally, lens: &[u64]) -> Flow {
+        // a failing read stays recorded after the marker; a replay reaches it through the
+        // marker first (same reads, same order)
+        self.ops.push(Op::Audit(lens.to_vec()));
+        self.audit(st, ta, lens)
+    }
+
+    /// what kind of history this was: configuration, how often it rolled over / evicted
+    /// (bucketed) and which corner states it reached
+    fn shape(&self) -> u64 {
+        let bucket = |n: u32| match n {
+            0..=3 => n,
+            4..=7 => 4,
+            8..=15 => 5,
+            _ => 6,
+        };
+        let text = format!(
+            "{}|{}|{}|{}|{:b}",
+            self.cfg.segment_size,
+            self.cfg.max_segments,
+            bucket(self.rollovers),
+            bucket(self.evictions),
+            self.corner_mask
+        );
+        fnv(text.as_bytes())
+    }
+}
+
+// ---------------------------------------------------------------- exhaustive small scope
+
+const SMALL_SEGMENT: usize = 1024;
+const SMALL_SIZES: [usize; 5] = [1, 500, 1023, 1024, 3000];
+const SMALL_LENS: [u64; 5] = [0, 1, 2, 3, u64::MAX / 2];
+const SMALL_MAX_SEGMENTS: [usize; 3] = [1, 2, 3];
+
+fn exhaustive(ctx: &Ctx, st: &mut Stats, ta: &mut Tally, max_appends: u32, shard: usize, shards: usize) {
+    let n = SMALL_SIZES.len() as u64;
+    let total = n.pow(max_appends);
+    // every sequence of exactly max_appends appends; audits after every append cover the
+    // shorter sequences as prefixes
+    for index in 0..total {
+        if index as usize % shards != shard {
+            continue;
+        }
+        for max_segments in SMALL_MAX_SEGMENTS {
+            if st.violations.len() >= 5 {
+                return;
+            }
+            st.evaluations += 1;
+            let cfg = Config { segment_size: SMALL_SEGMENT, max_segments };
+            let Some(mut d) = Driver::new(ctx, cfg) else {
+                st.inconclusive.push("CommitLog::new failed".into());
+                return;
+            };
+            let mut x = index;
+            let mut flow = d.audit_op(st, ta, &SMALL_LENS);
+            for _ in 0..max_appends {
+                if flow == Flow::Stop {
+                    break;
+                }
+                let size = SMALL_SIZES[(x % n) as usize];
+                x /= n;
+                flow = d.append(st, ta, size);
+                if flow == Flow::Go {
+                    flow = d.audit_op(st, ta, &SMALL_LENS);
+                }
+            }
+            if d.rolled {
+                st.shapes.insert(d.shape());
+            }
+            if index == total - 1 && max_segments == 2 {
+                st.sample(json!({
+                    "kind": "small scope: last enumerated append sequence, every issued cursor read with every length after every append",
+                    "case": d.replay_json(),
+                    "issued_cursors_at_end": d.pool.iter().map(|(c, p)| json!({"cursor": [c.0, c.1], "position": p})).collect::<Vec<_>>(),
+                    "log_head_tail": d.log._head_and_tail(),
+                    "oldest_retained_position": d.model.oldest_retained(),
+                }));
+            }
+        }
+    }
+}
+
+// ---------------------------------------------------------------- random histories
+
+fn random_len(rng: &mut Rng, allow_trigger: bool) -> u64 {
+    if allow_trigger && rng.chance(1, 6) {
+        return *rng.pick(&[u64::MAX, u64::MAX - 1, u64::MAX - 7]);
+    }
+    match rng.below(12) {
+        0 | 1 => 0,
+        2 | 3 => 1,
+        4 => 2,
+        5 => 7,
+        6 => rng.range(3, 40),
+        7 => 100,
+        8 => u64::MAX / 2,
+        9 => u32::MAX as u64,
+        _ => rng.range(1, 5),
+    }
+}
+
+fn random_size(rng: &mut Rng, seg: usize, profile: u64) -> usize {
+    let small = [0usize, 1, 7, 64, seg / 10];
+    let big = [seg / 3, seg / 2, seg - 1, seg, seg + 1, 3 * seg];
+    let big_weight = match profile {
+        0 => 2,
+        1 => 6,
+        _ => 9,
+    };
+    if rng.below(10) < big_weight {
+        *rng.pick(&big)
+    } else {
+        *rng.pick(&small)
+    }
+}
+
+fn fabricated(rng: &mut Rng, d: &Driver) -> Cursor {
+    let (tail_seg, tail_off) = (d.model.tail_segment(), d.model.tail_position());
+    let base = if d.pool.is_empty() { (0, 0) } else { d.pool[rng.below(d.pool.len() as u64) as usize].0 };
+    match rng.below(10) {
+        0 => (base.0, base.1.wrapping_add(1)),
+        1 => (base.0, base.1.wrapping_sub(1)),
+        2 => (base.0.wrapping_add(1), base.1),
+        3 => (base.0.wrapping_sub(1), base.1),
+        4 => (rng.below(tail_seg + 3), rng.below(tail_off + 3)),
+        5 => (u64::MAX, u64::MAX),
+        6 => (base.0, u64::MAX),
+        7 => (u64::MAX, base.1),
+        8 => (rng.below(tail_seg + 1), 0),
+        _ => (rng.next(), rng.next()),
+    }
+}
+
+fn random_history(ctx: &Ctx, st: &mut Stats, ta: &mut Tally, rng: &mut Rng, want_sample: bool) {
+    st.evaluations += 1;
+    let cfg = Config {
+        segment_size: *rng.pick(&[1024usize, 1024, 1500, 2048, 4096]),
+        max_segments: *rng.pick(&[1usize, 2, 2, 3, 3, 10]),
+    };
+    // ~15 % of the histories may use read lengths next to u64::MAX (trigger of the known
+    // `idx + len` overflow in Segment::readv); the others never do
+    let allow_trigger = rng.chance(15, 100);
+    let profile = rng.below(3);
+    let n_ops = rng.range(10, 120);
+    let Some(mut d) = Driver::new(ctx, cfg) else {
+        st.inconclusive.push("CommitLog::new failed".into());
+        return;
+    };
+    if want_sample {
+        d.trace = Some(Vec::new());
+    }
+    let mut flow = Flow::Go;
+    for _ in 0..n_ops {
+        if flow == Flow::Stop {
+            break;
+        }
+        match rng.weighted(&[45, 25, 10, 10, 10]) {
+            0 => {
+                let size = random_size(rng, cfg.segment_size, profile);
+                flow = d.append(st, ta, size);
+            }
+            1 => {
+                // any issued cursor, old ones as likely as fresh ones
+                let (cursor, position) = d.pool[rng.below(d.pool.len() as u64) as usize];
+                let len = random_len(rng, allow_trigger);
+                flow = d.read(st, ta, cursor, len, Some(position));
+            }
+            2 => {
+                // the oldest issued cursors: most likely stale
+                let i = rng.below((d.pool.len() as u64 / 4).max(1)) as usize;
+                let (cursor, position) = d.pool[i];
+                let len = random_len(rng, allow_trigger);
+                flow = d.read(st, ta, cursor, len, Some(position));
+            }
+            3 => {
+                // follow the continuation of the previous read, like a subscriber does
+                if let Some((cursor, position)) = d.last_end {
+                    let len = random_len(rng, allow_trigger);
+                    flow = d.read(st, ta, cursor, len, Some(position));
+                    }
+            }
+            _ => {
+                let cursor = fabricated(rng, &d);
+                // a fabricated value that equals an issued one *is* an issued cursor
+                let position = d.pool.iter().find(|(c, _)| *c == cursor).map(|(_, p)| *p);
+                let len = random_len(rng, allow_trigger);
+                flow = d.read(st, ta, cursor, len, position);
+            }
+        }
+    }
+    // closing sweep over a sample of everything issued, however old
+    if flow == Flow::Go {
+        let step = (d.pool.len() / 24).max(1);
+        let mut i = 0;
+        while i < d.pool.len() && flow == Flow::Go {
+            let (cursor, position) = d.pool[i];
+            flow = d.read(st, ta, cursor, *rng.pick(&[0u64, 1, 3, u64::MAX / 2]), Some(position));
+            i += step;
+        }
+    }
+    if d.rolled {
+        st.shapes.insert(d.shape());
+    }
+    if want_sample && d.evicted && d.jumped && d.ops.len() < 60 {
+        st.sample(json!({
+            "kind": "random history",
+            "case": d.replay_json(),
+            "observed": d.trace,
+            "log_head_tail": d.log._head_and_tail(),
+            "log_next_offset": d.log.next_offset(),
+            "oldest_retained_position": d.model.oldest_retained(),
+            "entries_appended": d.model.tail_position(),
+        }));
+    }
+}
+
+/// Directed histories: the corner states of DESIGN.md Appendix C plus the read lengths next
+/// to u64::MAX, run at every seed
+fn directed(ctx: &Ctx, st: &mut Stats, ta: &mut Tally) {
+    for max_segments in [1usize, 2, 3] {
+        for big_len in [u64::MAX / 2, u64::MAX] {
+            st.evaluations += 1;
+            let cfg = Config { segment_size: 1024, max_segments };
+            let Some(mut d) = Driver::new(ctx, cfg) else {
+                st.inconclusive.push("CommitLog::new failed".into());
+                return;
+            };
+            let mut flow = Flow::Go;
+            // 12 entries of 512 bytes: two per segment, six segments
+            for _ in 0..12 {
+                if flow == Flow::Go {
+                    flow = d.append(st, ta, 512);
+                }
+                if flow == Flow::Go {
+                    flow = d.audit_op(st, ta, &[0, 1, 2]);
+                }
+            }
+            if flow == Flow::Go {
+                flow = d.audit_op(st, ta, &[big_len]);
+            }
+            let _ = flow;
+            st.shapes.insert(d.shape());
+        }
+    }
+}
+
+// ---------------------------------------------------------------- run / replay
+
+fn work(ctx: &Ctx, shard: usize, shards: usize, seed: u64) -> Stats {
+    let mut st = Stats::default();
+    let mut ta = Tally::default();
+    if shard == 0 {
+        directed(ctx, &mut st, &mut ta);
+    }
+    let depth = small_scope_depth(ctx);
+    exhaustive(ctx, &mut st, &mut ta, depth, shard, shards);
+    let mut rng = Rng::new(seed ^ 0xc13);
+    let n = if cfg!(miri) { 10 } else { ctx.size(200_000, 10_000_000) / shards as u64 };
+    for i in 0..n {
+        if st.violations.len() >= 5 {
+            break;
+        }
+        let mut r = rng.fork();
+        random_history(ctx, &mut st, &mut ta, &mut r, shard == 0 && i < 2000);
+    }
+    ta.flush(&mut st);
+    st
+}
+
+fn small_scope_depth(ctx: &Ctx) -> u32 {
+    if cfg!(miri) {
+        // Miri smoke (DESIGN.md 2.8): a few thousand calls, judged by Miri's own UB reports
+        return 2;
+    }
+    if ctx.quick() {
+        6
+    } else {
+        8
+    }
+}
+
+fn run(ctx: &Ctx) -> Stats {
+    let threads = ctx.threads.max(1);
+    let mut st = sharded(ctx, threads, |shard, seed| work(ctx, shard, threads, seed));
+    st.violations.truncate(5);
+    if st.violations.is_empty() {
+        st.exhaustive_scopes.push(format!(
+            "every sequence of <= {} appends with sizes from {:?} on a {}-byte-segment log with max_segments in {:?}; after every append (and on the empty log) readv from every cursor issued so far (tails, entry tags, continuations, also those issued during the sweep) with every len in {{0, 1, 2, 3, u64::MAX/2}}",
+            small_scope_depth(ctx),
+            SMALL_SIZES,
+            SMALL_SEGMENT,
+            SMALL_MAX_SEGMENTS
+        ));
+    }
+    st
+}
+
+fn replay(ctx: &Ctx, case: &Value) -> Stats {
+    let mut st = Stats::default();
+    let mut ta = Tally::default();
+    st.evaluations = 1;
+    let cfg = Config {
+        segment_size: case["segment_size"].as_u64().unwrap_or(1024) as usize,
+        max_segments: case["max_segments"].as_u64().unwrap_or(1) as usize,
+    };
+    let ops: Vec<Op> = case["ops"].as_array().map(|a| a.iter().filter_map(Op::from_json).collect()).unwrap_or_default();
+    let Some(mut d) = Driver::new(ctx, cfg) else {
+        st.inconclusive.push("CommitLog::new failed".into());
+        return st;
+    };
+    for op in ops {
+        let flow = match op {
+            Op::Append(size) => d.append(&mut st, &mut ta, size),
+            Op::Read { cursor, len, position } => d.read(&mut st, &mut ta, cursor, len, position),
+            Op::Audit(lens) => d.audit_op(&mut st, &mut ta, &lens),
+        };
+        if flow == Flow::Stop {
+            break;
+        }
+    }
+    st.sample(d.replay_json());
+    ta.flush(&mut st);
+    if st.violations.is_empty() {
+        st.inconclusive.push("replayed case did not reproduce a violation".into());
+    }
+    st
 }
 
 pub fn prop() -> Prop {
     Prop {
-        id: "C13",
+        id: ID,
         meta: Meta {
             level: "exploration",
-            rule: "not built",
-            assumptions: &[],
-            floors: &[],
+            rule: "a case is one history (one log configuration, a sequence of appends and reads). distinct_nontrivial counts distinct (segment size, max_segments, number of rollovers bucketed 0/1/2/3/4-7/8-15/16+, number of evictions bucketed the same way, set of named corner states reached) signatures among histories in which at least one segment rollover happened; op order, sizes, lengths and cursor values are abstracted away",
+            assumptions: &[
+                "rollover rule taken from the CommitLog doc comment and its tests: a new segment is started by the append that finds the active segment's byte size >= the limit",
+                "the 'retention' oracle reads 'keeps at most the configured number of segments, discards only whole oldest segments' as a retention policy: the oldest segment is discarded exactly when a rollover would otherwise exceed the configured number (an earlier discard is reported too)",
+                "issued cursors = next_offset()/append() results, entry tags, and the end of a Position returned for an issued cursor; the start field of Position is not judged",
+                "readv takes &self: reads cannot change the log, so reading from every issued cursor after every append covers all interleavings of reads in the small scope",
+            ],
+            floors: &[
+                ("segment-rollover", 10_000),
+                ("eviction", 10_000),
+                ("stale-cursor-jump", 10_000),
+                ("read-len-0", 10_000),
+                ("boundary-cursor-previous-segment", 1_000),
+                ("read-spans-segments", 10_000),
+                ("oversized-entry", 1_000),
+                ("eviction-with-one-segment", 1_000),
+                ("continuation-followed", 10_000),
+                ("read-stops-at-segment-end", 1_000),
+                ("read-bounds", 100_000),
+            ],
         },
         run,
-        replay: None,
+        replay: Some(replay),
     }
 }
